@@ -15,6 +15,39 @@ fn fresh_id() -> u8 {
     }
 }
 
+/// native runs only: forget every token (each native harness starts from an empty ledger)
+pub fn reset_ledger() {
+    unsafe {
+        NEXT_ID = 0;
+        DROPS = [0; MAX_IDS];
+        ZMADE = 0;
+        ZDROPPED = 0;
+        CLONE_COUNTDOWN = -1;
+    }
+}
+
+/// native runs only: the n-th clone of a droppable value from now on panics (before anything is created)
+pub static mut CLONE_COUNTDOWN: i32 = -1;
+pub fn arm_clone_panic(n: i32) {
+    unsafe { CLONE_COUNTDOWN = n }
+}
+pub fn disarm_clone_panic() {
+    unsafe { CLONE_COUNTDOWN = -1 }
+}
+#[inline]
+fn clone_hook() {
+    #[cfg(not(kani))]
+    unsafe {
+        if CLONE_COUNTDOWN == 0 {
+            CLONE_COUNTDOWN = -1;
+            panic!("injected: a field's clone panics");
+        }
+        if CLONE_COUNTDOWN > 0 {
+            CLONE_COUNTDOWN -= 1;
+        }
+    }
+}
+
 pub fn drops(id: u8) -> u8 {
     unsafe { DROPS[id as usize] }
 }
@@ -77,6 +110,7 @@ impl Drop for Tok {
 }
 impl Clone for Tok {
     fn clone(&self) -> Self {
+        clone_hook();
         Tok { id: fresh_id(), val: self.val }
     }
 }
@@ -94,6 +128,7 @@ impl Drop for Tok4 {
 }
 impl Clone for Tok4 {
     fn clone(&self) -> Self {
+        clone_hook();
         Tok4 { id: fresh_id() as u32, val: self.val }
     }
 }
@@ -102,6 +137,22 @@ impl Clone for Tok4 {
 #[derive(Clone, Copy, Debug, PartialEq, Eq)]
 #[repr(align(16))]
 pub struct A16(pub u64);
+
+/// 520-byte plain data (one payload word, the rest is ballast)
+#[derive(Clone, Copy, Debug, PartialEq, Eq)]
+#[repr(C)]
+pub struct Big {
+    pub v: u64,
+    pub ballast: [u64; 64],
+}
+
+/// 136-byte plain data
+#[derive(Clone, Copy, Debug, PartialEq, Eq)]
+#[repr(C)]
+pub struct Wide {
+    pub v: u64,
+    pub ballast: [u64; 16],
+}
 
 /// zero-size user type
 #[derive(Clone, Copy, Debug, PartialEq, Eq)]
@@ -120,6 +171,7 @@ impl Drop for ZTok {
 }
 impl Clone for ZTok {
     fn clone(&self) -> Self {
+        clone_hook();
         unsafe { ZMADE += 1 }
         ZTok
     }
@@ -194,6 +246,18 @@ impl Val for A16 {
     fn make(s: u64) -> A16 { A16(s) }
     fn is(&self, s: u64) -> bool { self.0 == s }
 }
+impl Val for Big {
+    type Seed = u64;
+    fn seed() -> u64 { nd::<u64>() }
+    fn make(s: u64) -> Big { Big { v: s, ballast: [0; 64] } }
+    fn is(&self, s: u64) -> bool { self.v == s }
+}
+impl Val for Wide {
+    type Seed = u64;
+    fn seed() -> u64 { nd::<u64>() }
+    fn make(s: u64) -> Wide { Wide { v: s, ballast: [0; 16] } }
+    fn is(&self, s: u64) -> bool { self.v == s }
+}
 impl Val for Box<u32> {
     type Seed = u32;
     fn seed() -> u32 { nd::<u32>() }
@@ -233,6 +297,44 @@ impl TokVal for u8 { fn token(s: u8) -> Token { Token::U8(s) } fn any_token() ->
 impl TokVal for u16 { fn token(s: u16) -> Token { Token::U16(s) } fn any_token() -> Token { Token::U16(nd::<u16>()) } }
 impl TokVal for u32 { fn token(s: u32) -> Token { Token::U32(s) } fn any_token() -> Token { Token::U32(nd::<u32>()) } }
 impl TokVal for u64 { fn token(s: u64) -> Token { Token::U64(s) } fn any_token() -> Token { Token::U64(nd::<u64>()) } }
+impl TokVal for Big { fn token(s: u64) -> Token { Token::U64(s) } fn any_token() -> Token { Token::U64(nd::<u64>()) } }
+impl serde::Serialize for Big {
+    fn serialize<S: serde::Serializer>(&self, serializer: S) -> Result<S::Ok, S::Error> {
+        serializer.serialize_u64(self.v)
+    }
+}
+struct BigVisitor;
+impl<'de> serde::de::Visitor<'de> for BigVisitor {
+    type Value = Big;
+    fn expecting(&self, _f: &mut std::fmt::Formatter) -> std::fmt::Result { Ok(()) }
+    fn visit_u64<E: serde::de::Error>(self, v: u64) -> Result<Big, E> {
+        Ok(Big { v, ballast: [0; 64] })
+    }
+}
+impl<'de> serde::Deserialize<'de> for Big {
+    fn deserialize<D: serde::Deserializer<'de>>(deserializer: D) -> Result<Big, D::Error> {
+        deserializer.deserialize_u64(BigVisitor)
+    }
+}
+impl TokVal for Wide { fn token(s: u64) -> Token { Token::U64(s) } fn any_token() -> Token { Token::U64(nd::<u64>()) } }
+impl serde::Serialize for Wide {
+    fn serialize<S: serde::Serializer>(&self, serializer: S) -> Result<S::Ok, S::Error> {
+        serializer.serialize_u64(self.v)
+    }
+}
+struct WideVisitor;
+impl<'de> serde::de::Visitor<'de> for WideVisitor {
+    type Value = Wide;
+    fn expecting(&self, _f: &mut std::fmt::Formatter) -> std::fmt::Result { Ok(()) }
+    fn visit_u64<E: serde::de::Error>(self, v: u64) -> Result<Wide, E> {
+        Ok(Wide { v, ballast: [0; 16] })
+    }
+}
+impl<'de> serde::Deserialize<'de> for Wide {
+    fn deserialize<D: serde::Deserializer<'de>>(deserializer: D) -> Result<Wide, D::Error> {
+        deserializer.deserialize_u64(WideVisitor)
+    }
+}
 impl TokVal for Tok { fn token(s: TokSeed) -> Token { Token::U8(s.val) } fn any_token() -> Token { Token::U8(nd::<u8>()) } }
 
 impl serde::Serialize for Tok {
